@@ -839,6 +839,7 @@ func ruleV7(c *Ctx, id string) {
 var panicJustified = map[string]string{
 	"(*fstxn.FsTxn).AllocInode|AllocInode":                "allocator bit free implies inode FREE (C01.R3, C08.G2)",
 	"(*fstxn.FsTxn).LockInode|GetInodeLocked":             "cache.LookupSlot never returns nil (evicts instead)",
+	"(*fstxn.FsTxn).GetInodeLocked|GetInodeLocked":        "the same panic when LockInode is written out in GetInodeLocked",
 	"(*fstxn.FsTxn).GetInodeInum|getInodeInum":            "a non-FREE inode has Nlink >= 1 (C04.S3 balance)",
 	"(*fstxn.FsTxn).GetInodeUnlocked|GetInodeUnlocked":    "called only under OwnInum == true (dir.Apply)",
 	"(*inode.Inode).WriteInode|WriteInode":                "Inum < NInode for every cached inode (C11.V2)",
